@@ -291,6 +291,21 @@ func TestPropExtraKeysDoNotChangeKind(t *testing.T) {
 			used[k] = true
 		}
 		extras := 0
+		// `steps` is not one of the ten kind-determining keys either: with a well-typed value (a list of
+		// steps, empty or not, or null) it is the nested list of a group and an extra key of anything else
+		if rapid.IntRange(0, 3).Draw(t, "stepskey") == 0 {
+			var v yaml.Node
+			if err := yaml.Unmarshal([]byte(rapid.SampledFrom([]string{`[]`, `["wait"]`, `null`, `[{"command": "x"}]`, `[{"wait": null}, "block"]`}).Draw(t, "stepsval")), &v); err != nil {
+				t.Fatal(err)
+			}
+			sv := v.Content[0]
+			if sv.Kind == yaml.ScalarNode && sv.Tag == "!!null" {
+				sv = doc.Plain("null")
+			}
+			kv = append(kv, doc.StrNode("steps"), sv)
+			extras++
+			recExtra.Class("extra-key-named-steps")
+		}
 		for i := 0; i < nExtra; i++ {
 			k := rapid.OneOf(rapid.SampledFrom([]string{"agents", "artifact_paths", "retry", "if", "depends_on", "soft_fail", "parallelism", "Command", "WAIT", "types", "group ", "commandz"}), strs.S()).Draw(t, "extrakey")
 			if used[k] {
